@@ -226,12 +226,15 @@ def operatorGroups (numGroups : Nat) (a : Op) : List Op :=
   let k := min (max numGroups 1) a.length
   chunks (groupSizes a.length k) a
 
-/-- `functools.reduce(numpy.add, vecs)` over the results in the order `perm` delivers them -/
-def parallelMatvec (numGroups : Nat) (a : Op) (x : Vec) (perm : List Nat) : Vec :=
-  let results := (operatorGroups numGroups a).map fun g => matvec g x
-  match perm.map (fun i => results.getD i []) with
-  | [] => x.map fun _ => 0
+/-- `functools.reduce(numpy.add, vecs)`; `zero` = `numpy.zeros(x.shape)` when there is no group -/
+def reduceAdd (zero : Vec) : List Vec → Vec
+  | [] => zero
   | r :: rest => rest.foldl vadd r
+
+/-- `ParallelLinearQubitOperator._matvec` with the group results delivered in the order `perm` -/
+def parallelMatvec (numGroups : Nat) (a : Op) (x : Vec) (perm : List Nat) : Vec :=
+  reduceAdd (x.map fun _ => 0)
+    (perm.map fun i => ((operatorGroups numGroups a).map fun g => matvec g x).getD i [])
 
 /-! ### boson_operator_sparse: amplitudes are `√R` with `R : Nat` -/
 
